@@ -333,6 +333,8 @@ def run_scenario(spec):
         count("op:" + op["op"])
         if "err" in out:
             count("err:" + out["err"])
+        for _t, st in out.get("status", []):
+            count("polled-status:" + st)
         return out
 
     if "ops" in spec:
@@ -384,8 +386,14 @@ def run_scenario(spec):
         elif a == "exit":
             # mostly trials the loop has already seen a result of (else the tuner raises
             # "completed and no metrics got observed" and the history ends)
-            seen_live = [t for t in live if t in tuner.last_seen_result_per_trial]
-            t = rng.choice(seen_live) if seen_live and rng.random() < 0.93 else rng.choice(live)
+            seen_live = [t for t in live if t in tuner.last_seen_result_per_trial
+                         or len(be.env[t]["out"]) > be._last_metric_seen_index.get(t, 0)]
+            if seen_live and rng.random() < 0.97:
+                t = rng.choice(seen_live)
+            elif rng.random() < 0.3:
+                t = rng.choice(live)
+            else:
+                continue
             if t in unread_emit:
                 count("exit-before-last-read")
             else:
